@@ -81,6 +81,8 @@ class Logic:
         """Axioms whose defined symbols occur (transitively) in `formulas`.  Dropping the others only weakens the
         hypotheses, so this is sound; it keeps each query small."""
         self.closure_lemmas()
+        ground = self.E.ground() if getattr(self, "E", None) is not None else []
+        formulas = list(formulas) + ground
         syms = set()
         for f in formulas:
             syms |= symbols_of(f)
@@ -99,7 +101,7 @@ class Logic:
                 else:
                     keep.append((needs, f))
             rest = keep
-        return chosen
+        return chosen + ground
 
     # ---------------------------------------------------------------- fresh symbols
     def fresh_name(self, prefix: str) -> str:
